@@ -5,7 +5,7 @@ from __future__ import annotations
 import ast
 
 from .. import AnalysisError
-from ..astutil import Deps, is_name
+from ..astutil import Deps, is_name, unwrap
 from ..cfg import CFG
 from ..engine import Analysis
 from ..kinds import arg_for, call_nodes, calls_to, forwards_varargs, normal_only, param_positions, q, strict, strict_but, token_assert, token_assert_for, vararg_names
@@ -216,10 +216,23 @@ def check(an: Analysis) -> None:
         ob.fail(aenter, None, "TaskGroupContext.__aenter__ never binds the group")
     init = prog.fn(f"{TGC}.__init__")
     vals = prog.cls(TGC).attr_val.get("_group", [])
-    if not (len(vals) == 1 and isinstance(vals[0], ast.Call) and an.callee(init, vals[0]) == "asyncio.TaskGroup" and not vals[0].args):
-        ob.fail(init, None, "self._group is not a fresh asyncio.TaskGroup() per context")
-    else:
+    from ..kinds import constructed_attr_values
+
+    def fresh_group(v: ast.AST | None) -> bool:
+        v = unwrap(v)
+        return isinstance(v, ast.Call) and an.callee(init, v) == "asyncio.TaskGroup" and not v.args and not v.keywords
+
+    if len(vals) == 1 and fresh_group(vals[0]):
         ob.inst(init, vals[0], "fresh TaskGroup per context")
+    else:
+        # the group may be an optional constructor argument: what matters is what every construction site of the package gets
+        sites = constructed_attr_values(an, TGC, "_group")
+        if not sites:
+            ob.fail(init, None, "self._group is not a fresh asyncio.TaskGroup() per context")
+        for site, stored in sites:
+            ob.inst(init, site, "construction site")
+            if not stored or not all(fresh_group(v) for v in stored):
+                ob.fail(init, site, "self._group is not a fresh asyncio.TaskGroup() per context")
     sinit = prog.fn("context.access.ScopeContext.__init__")
     svals = prog.cls("context.access.ScopeContext").attr_val.get("_task_group_context", [])
     if not (len(svals) == 1 and isinstance(svals[0], ast.Call) and an.callee(sinit, svals[0]) == tq and not svals[0].args and not svals[0].keywords):
